@@ -22,13 +22,14 @@ pub async fn declaration(
             let DocumentCursor { doc, context, .. } = cursor;
             if let Some(entry) = context {
                 match &entry {
-                    GlobalEntry::Type(t) => {
+                    GlobalEntry::Type(_) => {
                         // early return for int;
                         if &ident.value == "int" {
                             return Ok(None);
                         }
                         if let Some(entry) = doc.table.lookup(&ident.value) {
-                            let tokens = &doc.tokens[t.to_range()];
+                            // the name range is relative to the declaration of the looked up entry
+                            let tokens = &doc.tokens[entry.to_range()];
                             return Ok(Some(Location {
                                 uri,
                                 range: as_pos_range(&entry.to_text_range(tokens), &doc.text),
@@ -177,8 +178,9 @@ pub async fn implementation(
                             local_table: Some(&p.local_table),
                         };
                         if let Some(entry) = lookup_table.lookup(&ident.value) {
-                            let tokens = &doc.tokens[p.to_range()];
-                            if let Entry::Procedure(_) = entry {
+                            if let Entry::Procedure(proc_entry) = entry {
+                                // the name range is relative to the declaration of the looked up entry
+                                let tokens = &doc.tokens[proc_entry.to_range()];
                                 return Ok(Some(Location {
                                     uri,
                                     range: as_pos_range(&entry.to_text_range(tokens), &doc.text),
